@@ -443,6 +443,15 @@ class RecorderPolicy(RepoPolicy):
     def iter_raises(self, node, frame):
         return frozenset()
 
+    def subscript_store_raises(self, target, frame):
+        # a store into the active recording is Recording.__setitem__ of the shipped recording classes
+        if _self_attr(target.value) == self.roles.active:
+            key = ('Recording', '__setitem__')
+            if key not in self.iface_cache:
+                self.iface_cache[key] = self.summaries.iface_raises('Recording', '__setitem__')
+            return self.iface_cache[key]
+        return frozenset()
+
     def truth_raises(self, test, frame):
         # the truth value of what the wrapped function returned is computed by user code (__bool__ / __len__: numpy arrays
         # and data frames raise ValueError); any other tested value is the framework's own or a plain container
